@@ -22,6 +22,8 @@ pub enum Ty {
     TupII,  // (int, int)
     Fn(usize), // plain function of n positional ints returning int
     Any,
+    SetInt,  // dialect only (insertion-ordered sets are not part of the Python-shared core)
+    StructT, // dialect only: struct(n = int, s = str, l = list of int)
 }
 
 #[derive(Clone)]
@@ -38,6 +40,9 @@ pub struct Gen<'a> {
     in_def: usize,
     fail_rate: u64, // per 1000 expression choices
     budget: i64,
+    /// also generate what is specific to this implementation's dialect (sets, struct, popitem,
+    /// dict | dict, getattr): used by C02/C03/C04/C14, not by C01 (Python-shared core only)
+    dialect: bool,
 }
 
 fn absent() -> J {
@@ -70,6 +75,15 @@ fn named(n: &str, e: J) -> J {
 fn param(n: &str, kind: &str, d: J) -> J {
     json!({"n": n, "ncp": str_to_cp(n), "kind": kind, "d": d})
 }
+fn dot(obj: J, name: &str) -> J {
+    json!({"k": "dot", "e": obj, "name": name, "ncp": str_to_cp(name)})
+}
+fn tuple(items: Vec<J>) -> J {
+    json!({"k": "tuple", "items": items})
+}
+fn none() -> J {
+    json!({"k": "none"})
+}
 fn emit(e: J) -> J {
     json!({"k": "expr", "e": callf("emit", vec![e])})
 }
@@ -77,12 +91,29 @@ fn assign(n: &str, e: J) -> J {
     json!({"k": "assign", "tg": {"k": "var", "n": n}, "e": e})
 }
 
-const WORDS: &[&str] = &["", "a", "b", "ab", "ba", "abc", "x y", " pad ", "Aa", "zz", "a,b,c", "k1", "k2"];
+const WORDS: &[&str] = &["", "a", "b", "ab", "ba", "abc", "x y", " pad ", "Aa", "zz", "a,b,c", "k1", "k2",
+    "Hello World", "aXbXa", "  two  words ", "A1b c2D", "UP", "42", "a-b_c"];
+/// (template, kinds of the arguments: i int, s str, a anything) for the % operator
+const PERCENT: &[(&str, &str)] = &[("%s", "a"), ("<%s>", "a"), ("%r", "a"), ("%d", "i"), ("%x", "i"), ("%X", "i"), ("%o", "i"),
+    ("%s=%d", "si"), ("%d%%", "i"), ("%s, %r, %s", "asa"), ("%d-%d-%d", "iii"), ("plain", ""), ("100%%", ""), ("%s %s", "aa"),
+    // ill-formed or mismatching
+    ("%s %s", "a"), ("%s", "aa"), ("%", "a"), ("%z", "a"), ("abc%", ""), ("%d", "s"), ("%x", "s")];
+/// (template, positional kinds, named) for str.format
+const DOTFMT: &[(&str, &str, &[&str])] = &[("{}", "a", &[]), ("{} and {}", "aa", &[]), ("{0}{1}{0}", "as", &[]), ("{!r}", "s", &[]),
+    ("{0!r}:{1!s}", "sa", &[]), ("{x}", "", &["x"]), ("{x}-{y}-{x}", "", &["x", "y"]), ("{} {k}", "a", &["k"]), ("{{}}", "", &[]),
+    ("{{{}}}", "i", &[]), ("no fields", "a", &[]), ("a{}b{}c", "ia", &[]), ("{1}", "ai", &[]),
+    // ill-formed or mismatching
+    ("{} {0}", "aa", &[]), ("{0} {}", "aa", &[]), ("{}", "", &[]), ("{} {}", "a", &[]), ("{2}", "aa", &[]), ("{x}", "a", &[]),
+    ("{", "a", &[]), ("}", "a", &[]), ("{!}", "a", &[]), ("{!z}", "a", &[]), ("a{b", "a", &[]), ("{x", "", &["x"])];
 const KEYS: &[&str] = &["a", "b", "c", "k1", "k2"];
 
 impl<'a> Gen<'a> {
     pub fn new(rng: &'a mut Rng) -> Gen<'a> {
-        Gen { rng, scopes: vec![vec![]], counter: 0, in_loop: 0, in_def: 0, fail_rate: 12, budget: 60 }
+        Gen { rng, scopes: vec![vec![]], counter: 0, in_loop: 0, in_def: 0, fail_rate: 12, budget: 60, dialect: false }
+    }
+
+    pub fn set_dialect(&mut self, d: bool) {
+        self.dialect = d;
     }
 
     pub fn set_fail_rate(&mut self, r: u64) {
@@ -146,8 +177,86 @@ impl<'a> Gen<'a> {
                 let b = self.expr(&Ty::Int, depth - 1);
                 json!({"k": "tuple", "items": [a, b]})
             }
+            Ty::SetInt => self.set_int_expr(depth),
+            Ty::StructT => self.struct_expr(depth),
             _ => self.leaf(ty),
         }
+    }
+
+    /// an argument for a format conversion: i int, s str, a anything printable
+    fn fmt_arg(&mut self, kind: char, d: u32) -> J {
+        match kind {
+            'i' => self.expr(&Ty::Int, d),
+            's' => self.expr(&Ty::Str, d),
+            _ => {
+                let mut ts = vec![Ty::Int, Ty::Str, Ty::Bool, Ty::ListInt, Ty::TupII, Ty::DictSI, Ty::NoneT, Ty::ListStr];
+                if self.dialect {
+                    ts.push(Ty::StructT);
+                    ts.push(Ty::SetInt);
+                }
+                let t = self.pick(&ts);
+                self.expr(&t, d)
+            }
+        }
+    }
+
+    fn percent_expr(&mut self, d: u32) -> J {
+        // well-formed templates are first in the table; the rest fail
+        let n_ok = 14;
+        let (t, kinds) = if self.rng.chance(1, 12) { PERCENT[n_ok + self.rng.below((PERCENT.len() - n_ok) as u64) as usize] } else { PERCENT[self.rng.below(n_ok as u64) as usize] };
+        let args: Vec<J> = kinds.chars().map(|k| self.fmt_arg(k, d)).collect();
+        // one argument: bare or as a 1-tuple; a bare tuple argument is spread (that is the rule)
+        let rhs = if args.len() == 1 && self.rng.chance(1, 2) { args[0].clone() } else { tuple(args) };
+        bin("%", strlit(t), rhs)
+    }
+
+    fn dotformat_expr(&mut self, d: u32) -> J {
+        let n_ok = 13;
+        let (t, kinds, names) = if self.rng.chance(1, 12) { DOTFMT[n_ok + self.rng.below((DOTFMT.len() - n_ok) as u64) as usize] } else { DOTFMT[self.rng.below(n_ok as u64) as usize] };
+        let args: Vec<J> = kinds.chars().map(|k| self.fmt_arg(k, d)).collect();
+        let mut c = mcall(strlit(t), "format", args);
+        let nm: Vec<J> = names.iter().map(|n| named(n, self.fmt_arg('a', d))).collect();
+        c["named"] = J::Array(nm);
+        c
+    }
+
+    fn fstr_expr(&mut self) -> J {
+        let vs = self.vars_of(|t| matches!(t, Ty::Int | Ty::Str | Ty::Bool | Ty::ListInt | Ty::TupII));
+        if vs.is_empty() {
+            return self.leaf(&Ty::Str);
+        }
+        let n = 1 + self.rng.below(2) as usize;
+        let names: Vec<String> = (0..n).map(|_| self.pick(&vs).name).collect();
+        let lits: Vec<J> = (0..n + 1).map(|_| str_to_cp(self.pick(&["", "a", " = ", "{", "}", "x:", "%s"]))).collect();
+        json!({"k": "fstr", "lits": lits, "names": names})
+    }
+
+    fn set_int_expr(&mut self, d: u32) -> J {
+        match self.rng.below(7) {
+            0 | 1 => callf("set", vec![self.int_iterable(d - 1)]),
+            2 => bin(self.pick(&["|", "&", "-", "^"]), self.expr(&Ty::SetInt, d - 1), self.expr(&Ty::SetInt, d - 1)),
+            3 => mcall(self.expr(&Ty::SetInt, d - 1), self.pick(&["union", "intersection", "difference", "symmetric_difference"]), vec![self.int_iterable(d - 1)]),
+            4 => callf("set", vec![]),
+            _ => {
+                let vs = self.vars_of(|t| *t == Ty::SetInt);
+                if vs.is_empty() { callf("set", vec![self.expr(&Ty::ListInt, d - 1)]) } else { var(&self.pick(&vs).name) }
+            }
+        }
+    }
+
+    fn struct_expr(&mut self, d: u32) -> J {
+        let vs = self.vars_of(|t| *t == Ty::StructT);
+        if !vs.is_empty() && self.rng.chance(1, 2) {
+            return var(&self.pick(&vs).name);
+        }
+        let mut c = call(var("struct"), vec![]);
+        let mut nm = vec![named("n", self.expr(&Ty::Int, d.saturating_sub(1))), named("s", self.expr(&Ty::Str, d.saturating_sub(1))),
+                          named("l", self.expr(&Ty::ListInt, d.saturating_sub(1)))];
+        if self.rng.chance(1, 3) {
+            nm.swap(0, 1); // equality must not depend on the order of the fields
+        }
+        c["named"] = J::Array(nm);
+        c
     }
 
     fn leaf(&mut self, ty: &Ty) -> J {
@@ -202,11 +311,17 @@ impl<'a> Gen<'a> {
                 json!({"k": "lambda", "params": ps, "body": body})
             }
             Ty::Any => int(0),
+            Ty::SetInt => callf("set", vec![json!({"k": "list", "items": [int(self.small_int()), int(self.small_int())]})]),
+            Ty::StructT => {
+                let mut c = call(var("struct"), vec![]);
+                c["named"] = json!([named("n", int(self.small_int())), named("s", strlit(self.pick(WORDS))), named("l", json!({"k": "list", "items": [int(1)]}))]);
+                c
+            }
         }
     }
 
     fn int_expr(&mut self, d: u32) -> J {
-        match self.rng.below(16) {
+        match self.rng.below(24) {
             0 | 1 => {
                 let op = self.pick(&["+", "-", "*"]);
                 let l = self.expr(&Ty::Int, d - 1);
@@ -276,10 +391,61 @@ impl<'a> Gen<'a> {
                 let op = self.pick(&["&", "|", "^"]);
                 let l = self.expr(&Ty::Int, d - 1);
                 let r = self.expr(&Ty::Int, d - 1);
-                // bit ops are outside Sem for now -> use + instead to stay in domain
-                let _ = op;
-                bin("+", l, r)
+                bin(op, l, r)
             }
+            16 => {
+                let l = self.expr(&Ty::Int, d - 1);
+                if self.rng.chance(1, 2) { bin(">>", l, int(self.pick(&[0i64, 1, 2, 5, 31, 40]))) } else { bin("<<", bin("%", l, int(1000)), int(self.pick(&[0i64, 1, 3, 8]))) }
+            }
+            17 => {
+                let s = self.expr(&Ty::Str, d - 1);
+                let nd = strlit(self.pick(&["a", "b", "ab", "z", " "]));
+                let mut a = vec![nd];
+                if self.rng.chance(1, 2) {
+                    a.push(if self.rng.chance(1, 5) { none() } else { int(self.pick(&[0i64, 1, 2, -1, -3, 7])) });
+                    if self.rng.chance(1, 2) {
+                        a.push(if self.rng.chance(1, 5) { none() } else { int(self.pick(&[0i64, 1, 3, -1, 9])) });
+                    }
+                }
+                mcall(s, self.pick(&["find", "rfind", "count", "find", "rfind"]), a)
+            }
+            18 => {
+                // index / rindex fail when the needle is absent: guard with `in`
+                let s = self.expr(&Ty::Str, d - 1);
+                let nd = strlit(self.pick(&["a", "b", "ab"]));
+                json!({"k": "if", "c": bin("in", nd.clone(), s.clone()), "t": mcall(s, self.pick(&["index", "rindex"]), vec![nd]), "f": int(-1)})
+            }
+            19 => {
+                let e = self.expr(&Ty::Int, d - 1);
+                match self.rng.below(4) {
+                    0 => callf("int", vec![callf("str", vec![e])]),
+                    1 => callf("int", vec![strlit(self.pick(&["12", "-7", "+3", "007", "0", "x", "", "1 2", "--1", "9a"]))]),
+                    2 => {
+                        let (t, b) = self.pick(&[("ff", 16i64), ("FF", 16), ("101", 2), ("-11", 2), ("777", 8), ("z", 36), ("12", 3), ("8", 8), ("g", 16), ("", 10)]);
+                        callf("int", vec![strlit(t), int(b)])
+                    }
+                    _ => callf("int", vec![self.expr(&Ty::Bool, d - 1)]),
+                }
+            }
+            20 => {
+                let s = bin("+", self.expr(&Ty::Str, d - 1), strlit("q"));
+                callf("ord", vec![json!({"k": "index", "e": s, "i": int(self.pick(&[0i64, -1]))})])
+            }
+            21 => {
+                let l = self.expr(&Ty::ListInt, d - 1);
+                let x = int(self.small_int());
+                let mut a = vec![x.clone()];
+                if self.rng.chance(1, 2) {
+                    a.push(int(self.pick(&[0i64, 1, -1, -2])));
+                }
+                // (x in l) does not imply x in the window: the failure is part of the semantics
+                json!({"k": "if", "c": bin("in", x, l.clone()), "t": mcall(l, "index", a), "f": int(-1)})
+            }
+            22 if self.dialect => {
+                let t = self.expr(&Ty::StructT, d - 1);
+                if self.rng.chance(1, 4) { callf("getattr", vec![t, strlit(self.pick(&["n", "nope"])), int(7)]) } else { dot(t, "n") }
+            }
+            23 if self.dialect => callf("len", vec![self.expr(&Ty::SetInt, d - 1)]),
             _ => {
                 let l = self.expr(&Ty::ListInt, d - 1);
                 let x = self.fresh("c");
@@ -297,7 +463,35 @@ impl<'a> Gen<'a> {
     }
 
     fn str_expr(&mut self, d: u32) -> J {
-        match self.rng.below(12) {
+        match self.rng.below(26) {
+            12 | 13 => self.percent_expr(d - 1),
+            14 | 15 => self.dotformat_expr(d - 1),
+            16 => self.fstr_expr(),
+            17 => mcall(self.expr(&Ty::Str, d - 1), self.pick(&["capitalize", "title"]), vec![]),
+            18 => {
+                let s = self.expr(&Ty::Str, d - 1);
+                let cs = strlit(self.pick(&["a", "ab", " ", "", "xa b"]));
+                mcall(s, self.pick(&["strip", "lstrip", "rstrip"]), vec![cs])
+            }
+            19 => {
+                let s = self.expr(&Ty::Str, d - 1);
+                mcall(s, self.pick(&["removeprefix", "removesuffix"]), vec![strlit(self.pick(&["a", "ab", "", "c", " "]))])
+            }
+            20 => {
+                let s = self.expr(&Ty::Str, d - 1);
+                mcall(s, "replace", vec![strlit(self.pick(&["a", "b", "ab", ""])), strlit(self.pick(&["", "x", "aa"])), int(self.pick(&[0i64, 1, 2, 5]))])
+            }
+            21 => {
+                let s = self.expr(&Ty::Str, d - 1);
+                let t = mcall(s, self.pick(&["partition", "rpartition"]), vec![strlit(self.pick(&["a", "b", ",", " ", "ab"]))]);
+                json!({"k": "index", "e": t, "i": int(self.pick(&[0i64, 1, 2, -1]))})
+            }
+            22 => {
+                let e = self.expr(&Ty::Int, d - 1);
+                callf("chr", vec![bin("+", int(97), bin("%", e, int(26)))])
+            }
+            23 if self.dialect => dot(self.expr(&Ty::StructT, d - 1), "s"),
+            24 if self.dialect => callf(self.pick(&["str", "repr"]), vec![self.expr(&Ty::StructT, d - 1)]),
             0 | 1 => {
                 let l = self.expr(&Ty::Str, d - 1);
                 let r = self.expr(&Ty::Str, d - 1);
@@ -355,7 +549,36 @@ impl<'a> Gen<'a> {
     }
 
     fn bool_expr(&mut self, d: u32) -> J {
-        match self.rng.below(10) {
+        match self.rng.below(17) {
+            10 => {
+                let s = self.expr(&Ty::Str, d - 1);
+                mcall(s, self.pick(&["isalnum", "isalpha", "isdigit", "isspace", "islower", "isupper", "istitle"]), vec![])
+            }
+            11 => {
+                let s = self.expr(&Ty::Str, d - 1);
+                let p = if self.rng.chance(1, 2) { tuple(vec![strlit(self.pick(&["a", "b", ""])), strlit(self.pick(&["ab", "x", " "]))]) } else { strlit(self.pick(&["a", "", "ab", "b"])) };
+                let mut a = vec![p];
+                if self.rng.chance(1, 2) {
+                    a.push(int(self.pick(&[0i64, 1, 2, -1])));
+                    if self.rng.chance(1, 2) {
+                        a.push(int(self.pick(&[1i64, 2, 3, -1, 9])));
+                    }
+                }
+                mcall(s, self.pick(&["startswith", "endswith"]), a)
+            }
+            12 if self.dialect => {
+                let op = self.pick(&["in", "notin"]);
+                bin(op, self.expr(&Ty::Int, d - 1), self.expr(&Ty::SetInt, d - 1))
+            }
+            13 if self.dialect => {
+                let l = self.expr(&Ty::SetInt, d - 1);
+                match self.rng.below(3) {
+                    0 => bin(self.pick(&["==", "!="]), l, self.expr(&Ty::SetInt, d - 1)),
+                    _ => mcall(l, self.pick(&["issubset", "issuperset"]), vec![self.int_iterable(d - 1)]),
+                }
+            }
+            14 if self.dialect => bin(self.pick(&["==", "!="]), self.expr(&Ty::StructT, d - 1), self.expr(&Ty::StructT, d - 1)),
+            15 if self.dialect => callf("hasattr", vec![self.expr(&Ty::StructT, d - 1), strlit(self.pick(&["n", "s", "zz"]))]),
             0 | 1 => {
                 let op = self.pick(&["==", "!=", "<", "<=", ">", ">="]);
                 let t = self.pick(&[Ty::Int, Ty::Str, Ty::TupII, Ty::ListInt]);
@@ -399,7 +622,7 @@ impl<'a> Gen<'a> {
     }
 
     fn list_int_expr(&mut self, d: u32) -> J {
-        match self.rng.below(13) {
+        match self.rng.below(14) {
             0 => {
                 let n = self.rng.below(4);
                 let items: Vec<J> = (0..n).map(|_| self.expr(&Ty::Int, d - 1)).collect();
@@ -447,6 +670,8 @@ impl<'a> Gen<'a> {
             8 => mcall(self.expr(&Ty::DictSI, d - 1), "values", vec![]),
             9 => mcall(self.expr(&Ty::DictII, d - 1), "keys", vec![]),
             10 => callf("list", vec![self.expr(&Ty::TupII, d - 1)]),
+            11 if self.dialect => callf(self.pick(&["list", "sorted"]), vec![self.expr(&Ty::SetInt, d - 1)]),
+            12 if self.dialect => dot(self.expr(&Ty::StructT, d - 1), "l"),
             _ => self.leaf(&Ty::ListInt),
         }
     }
@@ -461,7 +686,23 @@ impl<'a> Gen<'a> {
     }
 
     fn list_str_expr(&mut self, d: u32) -> J {
-        match self.rng.below(7) {
+        match self.rng.below(12) {
+            7 => {
+                let s = self.expr(&Ty::Str, d - 1);
+                let sep = if self.rng.chance(1, 3) { none() } else { strlit(self.pick(&[",", " ", "a", "ab"])) };
+                let mut a = vec![sep];
+                if self.rng.chance(2, 3) {
+                    a.push(int(self.pick(&[0i64, 1, 2, -1, 5])));
+                }
+                mcall(s, self.pick(&["split", "rsplit"]), a)
+            }
+            8 => mcall(self.expr(&Ty::Str, d - 1), self.pick(&["split", "rsplit"]), vec![]),
+            9 => {
+                let s = bin("+", self.expr(&Ty::Str, d - 1), strlit(self.pick(&["\n", "\nx", "\r\ny\n", "a\rb", ""])));
+                let a = if self.rng.chance(1, 2) { vec![json!({"k": "bool", "b": self.rng.chance(1, 2)})] } else { vec![] };
+                mcall(s, "splitlines", a)
+            }
+            10 => callf("list", vec![mcall(self.expr(&Ty::Str, d - 1), self.pick(&["partition", "rpartition"]), vec![strlit(self.pick(&["a", ",", " "]))])]),
             0 => {
                 let s = self.expr(&Ty::Str, d - 1);
                 mcall(s, "split", vec![strlit(self.pick(&[",", " ", "a", "ab"]))])
@@ -480,7 +721,7 @@ impl<'a> Gen<'a> {
     }
 
     fn dict_si_expr(&mut self, d: u32) -> J {
-        match self.rng.below(6) {
+        match self.rng.below(8) {
             0 => {
                 let n = self.rng.below(4) as usize;
                 let mut ks = Vec::new();
@@ -503,6 +744,14 @@ impl<'a> Gen<'a> {
             3 => {
                 let mut c = call(var("dict"), vec![]);
                 c["named"] = json!([named("a", self.expr(&Ty::Int, d - 1)), named("zz", self.expr(&Ty::Int, d - 1))]);
+                c
+            }
+            4 => bin("|", self.expr(&Ty::DictSI, d - 1), self.expr(&Ty::DictSI, d - 1)),
+            5 => {
+                let mut c = call(var("dict"), vec![json!({"k": "list", "items": [tuple(vec![strlit(self.pick(KEYS)), self.expr(&Ty::Int, d - 1)]), tuple(vec![strlit(self.pick(KEYS)), int(self.small_int())])]})]);
+                if self.rng.chance(1, 2) {
+                    c["named"] = json!([named("b", int(self.small_int()))]);
+                }
                 c
             }
             _ => self.leaf(&Ty::DictSI),
@@ -559,7 +808,12 @@ impl<'a> Gen<'a> {
     }
 
     fn new_var_stmt(&mut self, d: u32) -> Vec<J> {
-        let ty = self.pick(&[Ty::Int, Ty::Int, Ty::Str, Ty::ListInt, Ty::ListInt, Ty::DictSI, Ty::Bool, Ty::ListStr, Ty::TupII, Ty::DictII]);
+        let mut tys = vec![Ty::Int, Ty::Int, Ty::Str, Ty::Str, Ty::ListInt, Ty::ListInt, Ty::DictSI, Ty::Bool, Ty::ListStr, Ty::TupII, Ty::DictII];
+        if self.dialect {
+            tys.push(Ty::SetInt);
+            tys.push(Ty::StructT);
+        }
+        let ty = self.pick(&tys);
         // sometimes rebind an existing name of the same scope
         let existing: Vec<Var> = self.scopes.last().unwrap().iter().filter(|v| v.ty == ty).cloned().collect();
         let name = if !existing.is_empty() && self.rng.chance(1, 3) { self.pick(&existing).name } else { self.fresh("v") };
@@ -598,11 +852,22 @@ impl<'a> Gen<'a> {
             let dd = self.pick(&ds);
             let dv = var(&dd.name);
             let k = strlit(self.pick(KEYS));
-            let s = match self.rng.below(7) {
+            let s = match self.rng.below(8) {
                 0 | 1 => json!({"k": "assign", "tg": {"k": "index", "e": dv, "i": k}, "e": self.expr(&Ty::Int, d)}),
                 2 => json!({"k": "expr", "e": callf("emit", vec![mcall(dv, "pop", vec![k, int(-1)])])}),
                 3 => json!({"k": "expr", "e": callf("emit", vec![mcall(dv, "setdefault", vec![k, self.expr(&Ty::Int, d)])])}),
-                4 => json!({"k": "expr", "e": mcall(dv, "update", vec![self.expr(&Ty::DictSI, d)])}),
+                4 => {
+                    let mut c = match self.rng.below(3) {
+                        0 => mcall(dv, "update", vec![self.expr(&Ty::DictSI, d)]),
+                        1 => mcall(dv, "update", vec![json!({"k": "list", "items": [tuple(vec![strlit(self.pick(KEYS)), self.expr(&Ty::Int, d)])]})]),
+                        _ => mcall(dv, "update", vec![]),
+                    };
+                    if self.rng.chance(1, 2) {
+                        c["named"] = json!([named(self.pick(KEYS), self.expr(&Ty::Int, d)), named("zz", int(0))]);
+                    }
+                    json!({"k": "expr", "e": c})
+                }
+                6 if self.dialect => json!({"k": "if", "c": dv.clone(), "then": [emit(mcall(dv, "popitem", vec![]))], "else": []}),
                 5 => json!({"k": "if", "c": bin("in", k.clone(), dv.clone()), "then": [{"k": "aug", "op": "+", "tg": {"k": "index", "e": dv, "i": k}, "e": int(1)}], "else": []}),
                 _ => json!({"k": "expr", "e": mcall(dv, "clear", vec![])}),
             };
@@ -616,7 +881,12 @@ impl<'a> Gen<'a> {
             let v = self.pick(&vs);
             return vec![emit(var(&v.name))];
         }
-        let ty = self.pick(&[Ty::Int, Ty::Str, Ty::Bool, Ty::ListInt, Ty::DictSI, Ty::ListStr, Ty::TupII, Ty::DictII]);
+        let mut tys = vec![Ty::Int, Ty::Str, Ty::Str, Ty::Bool, Ty::ListInt, Ty::DictSI, Ty::ListStr, Ty::TupII, Ty::DictII];
+        if self.dialect {
+            tys.push(Ty::SetInt);
+            tys.push(Ty::StructT);
+        }
+        let ty = self.pick(&tys);
         vec![emit(self.expr(&ty, d))]
     }
 
@@ -999,6 +1269,7 @@ impl<'a> Gen<'a> {
     /// (safepoints exist only at module level). `hostv` is bound by the embedder.
     pub fn module_gc(&mut self, nstmts: usize) -> J {
         self.fail_rate = 3;
+        self.dialect = true;
         self.declare("hostv", Ty::ListAny);
         let mut out = Vec::new();
         for _ in 0..nstmts {
@@ -1132,6 +1403,7 @@ impl<'a> Gen<'a> {
     }
 
     pub fn module_opt(&mut self, nstmts: usize, wrap: bool) -> J {
+        self.dialect = true;
         let mut gen_block = |g: &mut Gen| -> Vec<J> {
             let mut out = Vec::new();
             for _ in 0..nstmts {
